@@ -13,9 +13,13 @@ within the fuel; every terminating case the generators build is far shallower).
 namespace QV.C18.Drv
 open QV QV.Ast QV.AstWire QV.C17 QV.C17.Drv QV.C18
 
-/-- levels of recursion given to the model (each level costs time linear in the size of the grown parameter
-and the breadcrumb list, so the run is quadratic in this number) -/
-def FUEL18 : Nat := 1000
+/-- levels of recursion given to the model.  On a parameter-growing input every level re-simplifies a
+parameter whose size grows with the depth (C12's model of the simplifier is the expensive part: measured
+0.13 s at 100 levels, 0.8 s at 200, about 50 s at 1000), so the fuel is kept at 150: an order of magnitude
+above the deepest TERMINATING expansion the generators can build (a chain through distinct (name, literal,
+qubit) combinations of a handful of calibrations, < 20), far below the depth at which the implementation's
+256 KiB worker stack overflows. -/
+def FUEL18 : Nat := 150
 
 def implClass (out : Sexp) : String :=
   match out with
